@@ -139,7 +139,9 @@ def run(chk):
                       {'case': d, 'observed': r})
       if 'err' in r['init'] or r['init']['ok']['shape'] != d['lengths']:
         chk.violation('oracle', 'init through nn.remat_scan does not create one parameter slice per layer (shape = lengths)', {'case': d, 'observed': r['init']})
-      rows.append((d, o, '(weq (fold_left (fun c w => %s * c + w) %s %s) %s)' % (cZ(d['a']), clist([cZ(int(z)) for z in np.array(d['w']).reshape(-1)]), cZ(d['c0']), cZ(r['apply']['ok']['out']))))
+      def cnest(t):
+        return '(NLeaf %s)' % cZ(int(t)) if not isinstance(t, list) else '(NNode %s)' % clist([cnest(x) for x in t])
+      rows.append((d, o, '(weq (nscan Z Z (fun c w => %s * c + w) %s %s) %s)' % (cZ(d['a']), cZ(d['c0']), cnest(d['w']), cZ(r['apply']['ok']['out']))))
       continue
     specs = [v['spec'] for v in d['vars']]
     chk.count(d, d['length'] > 1 and len({('axis' if isinstance(s, int) else s) for s in specs}) >= 2)
